@@ -60,3 +60,34 @@ package eventlog
 //@   requires b != nil && r != nil && rdLeft[ref(r)] >= 0
 //@   modifies rdLeft
 //@   sweep[C07,C18]
+
+// C18 (size-exact, strict encoders): a size-prefixed array is written as its size field (one byte, or four bytes
+// little-endian) holding exactly the number of bytes that follow, then the bytes; a size that does not equal the
+// array's length is refused. ByteSizedCStr adds the terminating NUL and therefore refuses strings over 254 bytes.
+//@ func writeSizedArray
+//@   requires w != nil
+//@   assigns nothing
+//@   modifies wrLen, wrLog
+//@   sweep[C18] nil index slice div typeassert panic makeslice nilmap
+//@   ensures[C18] err == nil ==> istype(size, uint8) || istype(size, uint32)
+//@   ensures[C18] err == nil && istype(size, uint8) ==> dyn(size, uint8) == len(data) && wrLen[ref(w)] == old(wrLen)[ref(w)] + 1 + len(data) && wrLog[ref(w)][old(wrLen)[ref(w)]] == len(data)
+//@   ensures[C18] err == nil && istype(size, uint32) ==> dyn(size, uint32) == len(data) && wrLen[ref(w)] == old(wrLen)[ref(w)] + 4 + len(data) && lg32(wrLog[ref(w)], old(wrLen)[ref(w)]) == len(data)
+//@   ensures[C18] err == nil ==> forall(k, 0 <= k && k < len(data) ==> wrLog[ref(w)][old(wrLen)[ref(w)] + ite(istype(size, uint8), 1, 4) + k] == bytesAt(data, k))
+//@   ensures[C18] forall(r, Int, r != ref(w) ==> wrLen[r] == old(wrLen)[r] && wrLog[r] == old(wrLog)[r])
+
+//@ func (*ByteSizedCStr).Marshal
+//@   requires b != nil && w != nil
+//@   assigns nothing
+//@   modifies wrLen, wrLog
+//@   sweep[C18] nil index slice div typeassert panic makeslice nilmap
+//@   ensures[C18] err == nil ==> len(b.Data) <= 254 && wrLen[ref(w)] == old(wrLen)[ref(w)] + len(b.Data) + 2 && wrLog[ref(w)][old(wrLen)[ref(w)]] == len(b.Data) + 1 && wrLog[ref(w)][old(wrLen)[ref(w)] + 1 + len(b.Data)] == 0
+//@   ensures[C18] forall(r, Int, r != ref(w) ==> wrLen[r] == old(wrLen)[r] && wrLog[r] == old(wrLog)[r])
+
+//@ func (*Uint32SizedArray).Marshal
+//@   requires b != nil && w != nil
+//@   assigns nothing
+//@   modifies wrLen, wrLog
+//@   sweep[C18] nil index slice div typeassert panic makeslice nilmap
+//@   ensures[C18] err == nil ==> len(b.Data) <= 4294967295 && wrLen[ref(w)] == old(wrLen)[ref(w)] + 4 + len(b.Data) && lg32(wrLog[ref(w)], old(wrLen)[ref(w)]) == len(b.Data)
+//@   ensures[C18] err == nil ==> forall(k, 0 <= k && k < len(b.Data) ==> wrLog[ref(w)][old(wrLen)[ref(w)] + 4 + k] == bytesAt(b.Data, k))
+//@   ensures[C18] forall(r, Int, r != ref(w) ==> wrLen[r] == old(wrLen)[r] && wrLog[r] == old(wrLog)[r])
